@@ -28,6 +28,9 @@ EXPLANATION = (
     " next(x) counts as raising StopIteration unless x is a token stream of the same function; the tokenizer's"
     " UnicodeEncodeError / SystemError and the plain UnicodeError of exotic codecs when writing are in the raiser"
     " table."
+    " Added in rounds 8 and 9: Asserts of a private helper are discharged when every caller guards the argument;"
+    " formatting the result of eval() counts as raising ValueError; setattr() is followed into the property"
+    " setters."
 )
 TRUSTED = ["cpsa/tables/raisers.py (external raisers) and cpsa/tables/asserts.py (assert triage), each line with its reason"]
 ASSUMPTIONS = [
